@@ -263,6 +263,14 @@ def run(ctx):
     okd = len(conv) == 1 and conv[0].args[1] == self_attr("xp")
     ctx.decide(okd, "C15.a2n", a2n.ident, loc_of(a2n), "array_to_namespace converts into the set's own namespace", "array_to_namespace does not convert into self.xp", disc="xp")
 
+    # every path converts: no return before (and no condition around) the asarray call.  An array of another library with an equal-looking dtype (a NumPy array in a
+    # JAX set: JAX dtypes *are* numpy dtypes) would otherwise stay what it was, and the set holds fields of two namespaces
+    early = [n_ for n_ in walk_no_nested(a2n.node) if isinstance(n_, ast.Return) and conv and conv[0].node is not None and n_.lineno < conv[0].node.lineno]
+    cond_ = bool(conv) and any(True for _ in conv[0].conds)
+    ctx.decide(bool(conv) and not early and not cond_, "C15.a2n", a2n.ident, loc_of(a2n, early[0] if early else None), "every path through array_to_namespace passes through the conversion into self.xp",
+               f"array_to_namespace returns at line {early[0].lineno if early else '?'} before the conversion (or converts only under a condition): an array of another library whose dtype compares equal "
+               "(a NumPy array handed to a JAX set -- JAX dtypes are numpy dtypes) is stored as it is, so from_dict / the constructor build a set whose fields live in two namespaces",
+               disc="always")
     # the device is applied by safe_to_device (which leaves NumPy / JAX alone), never handed to asarray: a conversion forwards the *source* set's device, and
     # numpy.asarray / jax.numpy.asarray reject a torch.device
     dev_kw = [n_ for n_ in walk_no_nested(a2n.node) if (isinstance(n_, ast.keyword) and n_.arg == "device" and isinstance(n_.value, ast.Attribute))
@@ -595,6 +603,8 @@ MUTANTS = [
     M("importance population without dtype", "src/aspire/samplers/importance.py", "parameters=self.parameters,\n            dtype=self.dtype,", "parameters=self.parameters,", "C15.pop"),
     M("restored population without dtype", "src/aspire/samplers/base.py", "samples_saved, xp=self.xp, dtype=self.dtype", "samples_saved, xp=self.xp", "C15.pop"),
     M("zuko sample with autograd", "src/aspire/flows/torch/flows.py", "with torch.no_grad():\n            x_prime = self.flow().rsample((n_samples,))", "if True:\n            x_prime = self.flow().rsample((n_samples,))", "C15.grad"),
+    M("array_to_namespace skips the conversion when the dtype already matches", _S, "x = asarray(x, self.xp, **kwargs)\n        x = safe_to_device(x, self.device, self.xp)\n        return x",
+      "if self.device is None and hasattr(x, \"dtype\") and x.dtype == kwargs[\"dtype\"]:\n            return x\n        x = asarray(x, self.xp, **kwargs)\n        x = safe_to_device(x, self.device, self.xp)\n        return x", "C15.a2n"),
     M("array_to_namespace into numpy always", _S, "x = asarray(x, self.xp, **kwargs)", "x = asarray(x, np, **kwargs)", "C15.a2n"),
 ]
 MUTANTS += [
